@@ -1,7 +1,7 @@
 """Per-property MANIFEST entries (level, text, trusted base, technique)."""
 CHECKS = {
     "C07": {
-        "families": ("processor",),
+        "families": ("processor", "evm"),
         "level": "proof",
         "technique": "Lean 4 theorems (omega, all n : Nat) over formulas re-translated from Go/Solidity/Ralph source on every run",
         "text": ("The three quorum formulas are translated from /repo's current sources into Lean definitions on every run and the "
@@ -178,7 +178,7 @@ CHECKS.update({
                  "are diff-only."),
     },
     "C16": {
-        "families": ("crash",),
+        "families": ("crash", "db"),
         "level": "fault_enumeration",
         "technique": "SIGKILL / reopen enumeration on the real badger store from a re-executed test binary, judged by a Lean acceptance function proved sound and meaningful for a crash-contract model (theorems over all put/ack/crash/reopen sequences)",
         "text": ("A child process runs db.Open and StoreSignedVAA and acknowledges each success; the parent kills it at PRNG-chosen points over many "
